@@ -4,7 +4,8 @@
 (* columns A (cells = 0), B (cells = 3) and the keys 1, 2; a branch is     *)
 (* from it by one column operation and one row operation per key:          *)
 (*   column ops  none | addC1 / addC2 (new column C filled with 1 / 2) |   *)
-(*               remB | swap (B before A) | renB (B renamed to B2)         *)
+(*               addC0 (C added in FRONT, i.e. possibly left of the key) | *)
+(*               remB | remA | swap (B before A) | renB (B renamed to B2)  *)
 (*   keys 1, 2   same | removed | A1 | A2 | B1 | A1B1 (cells changed) |      *)
 (*               X (the values of A and B exchanged: under "swap" the row  *)
 (*               then has the very bytes of the base row)                  *)
@@ -34,6 +35,8 @@ ColsAfter(op) ==
     [] op = "addC1" -> <<"A", "B", "C">>
     [] op = "addC2" -> <<"A", "B", "C">>
     [] op = "remB"  -> <<"A">>
+    [] op = "remA"  -> <<"B">>
+    [] op = "addC0" -> <<"C", "A", "B">>
     [] op = "swap"  -> <<"B", "A">>
     [] op = "renB"  -> <<"A", "B2">>
 
@@ -42,8 +45,8 @@ CellOf(st, op, c) ==
   CASE c = "A"  -> (IF st \in {"A1", "A1B1"} THEN 1 ELSE IF st = "A2" THEN 2 ELSE IF st = "X" THEN 3 ELSE 0)
     [] c = "B"  -> (IF st \in {"B1", "A1B1"} THEN 1 ELSE IF st = "X" THEN 0 ELSE 3)
     [] c = "B2" -> (IF st \in {"B1", "A1B1"} THEN 1 ELSE IF st = "X" THEN 0 ELSE 3)
-    [] c = "C"  -> (IF op = "addC1" THEN 1 ELSE 2)
-NewRowCell(st, op, c) == IF c = "C" THEN (IF op = "addC1" THEN 1 ELSE 2) ELSE (IF st = "add1" THEN 1 ELSE 2)
+    [] c = "C"  -> (IF op \in {"addC1", "addC0"} THEN 1 ELSE 2)
+NewRowCell(st, op, c) == IF c = "C" THEN (IF op \in {"addC1", "addC0"} THEN 1 ELSE 2) ELSE (IF st = "add1" THEN 1 ELSE 2)
 
 Branch(kp, op, s1, s2, s3) ==
   LET cs == ColsAfter(op)
